@@ -218,6 +218,7 @@ int main(void)
 		r = jwt_openssl_ops.sign_sha_hmac(&jwt, &out, &len, str, 5);
 		if (r == 0) {
 			PROP(vo_hmac_calls == 1 && out != NULL, "C05: HMAC computed once");
+			PROP(vo_hmac_md_owned, "C18: HMAC() writes into a caller-owned buffer (md == NULL selects OpenSSL's static, non-thread-safe result buffer)");
 			PROP(vo_md == (jwt.alg == JWT_ALG_HS256 ? vo_sha256 : jwt.alg == JWT_ALG_HS384 ? vo_sha384 : vo_sha512),
 			     "C05/C12: HMAC uses the hash the algorithm prescribes");
 			PROP(len == (jwt.alg == JWT_ALG_HS256 ? 32u : jwt.alg == JWT_ALG_HS384 ? 48u : 64u), "C05: MAC has the hash output length");
